@@ -156,6 +156,12 @@ func (g *gen) part(richness, pInvalid int, allowBad bool) *Part {
 	if g.pct(richness / 3) {
 		p.PM = map[string]string{words[g.r.IntN(len(words))]: fmt.Sprintf("pm%d", n)}
 	}
+	if g.pct(richness / 2) {
+		p.PWhen = sp(fmt.Sprintf("2023-07-%02dT08:09:10Z", 1+n%27))
+	}
+	if g.pct(richness / 3) {
+		p.TU = sp(fmt.Sprintf("tu%d", n))
+	}
 	if g.pct(richness) {
 		p.NestS = sp(fmt.Sprintf("ns%d", n))
 	}
@@ -471,6 +477,11 @@ func genCore(prop string, seed uint64, faulty bool) *Scenario {
 				c.Ops = append(c.Ops, Op{K: "bdone"})
 			}
 			sc.Clients = append(sc.Clients, c)
+			if k.lifecycle && g.pct(25) {
+				// somebody else calls Blank.Done while SetSource calls are in flight
+				sc.Clients = append(sc.Clients, ClientSpec{Name: fmt.Sprintf("bdone%d", i), Kind: "blankdone", Src: i,
+					Ops: []Op{{K: "pause", N: g.in(0, 80)}, {K: "bdone"}}})
+			}
 		}
 	}
 	// cancellers for blocking ops
